@@ -140,7 +140,7 @@ def fam_refused(out, tier, rnd):
                                 w.publish(A, "t", "early%d" % q, q)
                             if code == "timeout":
                                 # the connect timeout is the last-armed of the timers due (retry timers of early publishes come first)
-                                while w.t[A].phase == "open" and type(w.p[A].state).__name__ == "ConnectingState" and w.due() and w.in_range(w.due()[0]):
+                                while w.t[A].phase == "open" and W.state_name(w.p[A]) == "ConnectingState" and w.due() and w.in_range(w.due()[0]):
                                     w.fire(w.due()[0])
                             else:
                                 w.recv(A, W.connack(code, 0))
@@ -302,6 +302,8 @@ def fam_inject(out, tier, rnd):
 # ------------------------------------------------------------------------------------------------ args
 LONG = "a" * 65535
 TOOLONG = "a" * 65536
+ULONG = "\u00e9" * 32767 + "a"        # 65535 bytes of UTF-8 in 32768 characters: the longest representable
+UTOOLONG = "\u00e9" * 32768           # 65536 bytes in 32768 characters: too long although its character count is not
 
 
 def arg_vectors():
@@ -326,7 +328,7 @@ def arg_vectors():
     V.append(("connect", dict(base, password="pw")))
     V.append(("connect", dict(base, username="u", password="pw")))
     for fld in ("clientId", "willTopic", "willMessage", "username", "password"):
-        for s in (LONG, TOOLONG):
+        for s in (LONG, TOOLONG, ULONG, UTOOLONG):
             kw = dict(base, username="u") if fld == "password" else dict(base)
             if fld.startswith("will"):
                 kw.update(willTopic="w", willMessage="m")
@@ -338,13 +340,13 @@ def arg_vectors():
     for pl in ("", "text", bytearray(b"\x00\x01"), 5, None, 1.5, b"bytes", ["l"]):
         V.append(("publish", ("t", pl, 1)))
         V.append(("publish", ("t", pl, 0)))
-    for tp in (LONG, TOOLONG, 5, None, ""):
+    for tp in (LONG, TOOLONG, ULONG, UTOOLONG, 5, None, ""):
         V.append(("publish", (tp, "m", 1)))
     for q in (-1, 0, 2, 3):
         V.append(("subscribe", ("a", q)))
-    for arg in (("a", 1), ("a",), ("a", 3), [("a", 0), ("b", 2)], [("a", 1), ("b", 5)], [], ["a"], 5, None, {"a": 1}, [(LONG, 1)], [(TOOLONG, 1)], TOOLONG):
+    for arg in (("a", 1), ("a",), ("a", 3), [("a", 0), ("b", 2)], [("a", 1), ("b", 5)], [], ["a"], 5, None, {"a": 1}, [(LONG, 1)], [(TOOLONG, 1)], TOOLONG, [("a", 0), (UTOOLONG, 1)], [(ULONG, 2)]):
         V.append(("subscribe", (arg, 0)))
-    for arg in ("a", ["a", "b"], 5, None, [5], [LONG], [TOOLONG], TOOLONG, ("a",)):
+    for arg in ("a", ["a", "b"], 5, None, [5], [LONG], [TOOLONG], TOOLONG, ("a",), [UTOOLONG], ["a", ULONG]):
         V.append(("unsubscribe", (arg,)))
     return V
 
@@ -383,10 +385,10 @@ def history(w, prof, state, variant):
 
 def suffix(w, prof):
     """probe: observable consequences of whatever state the client is in"""
-    st = type(w.p[A].state).__name__
+    st = W.state_name(w.p[A])
     if st == "IdleState":
         w.connect(A, keepalive=0, cleanStart=False)
-        st = type(w.p[A].state).__name__
+        st = W.state_name(w.p[A])
     if st == "ConnectingState":
         if prof != "sub":
             w.publish(A, "t", "probe" * 40, 1)
@@ -419,6 +421,11 @@ def suffix(w, prof):
         w.recv(A, b"".join(W.ack("PUBACK", i) for i in ids))
     w.lost(A, "done")
     drain(w, 4)
+    # what is left behind: resumed by a persistent connection of a new protocol
+    w.build(A); w.set(A, "onDisconnection", 1)
+    w.connect(A, keepalive=0, cleanStart=False); w.recv(A, W.connack(0, 1))
+    w.lost(A, "done")
+    drain(w, 3)
 
 
 def fam_args(out, tier, rnd):
@@ -442,6 +449,103 @@ def fam_args(out, tier, rnd):
                     suffix(w, prof)
                     out.done(w)
 
+
+
+def fam_refstate(out, tier, rnd):
+    """calls that the state (or the profile) refuses, made with parameters that differ from the session's, in every state;
+    each history is paired with its twin without the call (meta.ref): nothing may differ afterwards          (C14)"""
+    def prefix(w, prof, state, variant):
+        if state == "disconnecting":
+            history(w, prof, "connected", variant); w.disconnect(A)
+        elif state == "refused":
+            history(w, prof, "connecting", variant); w.recv(A, W.connack(5, 0))
+        else:
+            history(w, prof, state, variant)
+    def calls(clean, ver):
+        other = dict(clientId="other", keepalive=7, cleanStart=not clean, version=3 if ver == 4 else 4)
+        return [("connect", other), ("connect", dict(other, version=ver)), ("connect", dict(other, cleanStart=clean)),
+                ("publish", ("x/t", "xm", 1)), ("publish", ("x/t", "xm", 0)), ("publish", ("x/t", "xm", 2)),
+                ("subscribe", ([("x/s", 2)], 0)), ("unsubscribe", (["x/s"],)), ("disconnect", None)]
+    for prof in ("pub", "sub", "both"):
+        for state in ("idle", "connecting", "connected", "disconnecting", "refused"):
+            for variant in ((0, 1, 2, 3) if tier == "thorough" else (1, 2)):
+                clean = bool(variant % 2); ver = 4 if variant < 2 else 3
+                ref = out.world(prof, meta={"ref": 0, "p0": 0})
+                prefix(ref, prof, state, variant); p0 = ref.n
+                suffix(ref, prof)
+                refid = out.done(ref)
+                for op, a in calls(clean, ver):
+                    w = out.world(prof, meta={"ref": refid, "p0": p0})
+                    prefix(w, prof, state, variant)
+                    if op == "disconnect":
+                        w.disconnect(A)
+                    else:
+                        apply_call(w, op, a)
+                    suffix(w, prof)
+                    out.done(w)
+
+
+# ------------------------------------------------------------------------------------------------ identifiers
+def fam_ids(out, tier, rnd):
+    """runs of consecutive identifiers held by unfinished requests of every kind (in flight at QoS 1 / 2, in the PUBREL
+    phase, SUBSCRIBE, UNSUBSCRIBE, held back in the queue) in every order, with and without the 65535 -> 1 wrap inside the
+    run; the counter is then placed just before the run and new requests of every kind are made            (C17)"""
+    import itertools
+    kinds = ("pub1", "pub2", "rel", "sub", "unsub")
+    def mid_of(w):
+        return next((e["mid"] for e in w.lines[-1]["fx"] if e["k"] == "ret"), -1)
+    def make(w, kind):
+        if kind == "pub1":
+            w.publish(A, "t", "m", 1)
+        elif kind == "pub2":
+            w.publish(A, "t", "m", 2)
+        elif kind == "rel":
+            w.publish(A, "t", "m", 2); m = mid_of(w)
+            if m > 0:
+                w.recv(A, W.ack("PUBREC", m))
+        elif kind == "sub":
+            w.subscribe(A, [("s/%d" % w.n, 1)])
+        elif kind == "unsub":
+            w.unsubscribe(A, ["s/%d" % w.n])
+    def place(w, first):                      # the next identifier handed out is `first`
+        w.pokeid((first - 2) % 65535 + 1)
+    runs = list(itertools.product(kinds, repeat=3 if tier == "thorough" else 2))
+    if tier == "quick":
+        runs += [("sub", "pub1", "unsub"), ("rel", "pub1", "sub"), ("unsub", "sub", "rel"), ("pub2", "rel", "pub1")]
+    for prof in ("both", "pub"):
+        for first in (1, 65534, 65535, 300):
+            if tier == "quick" and prof == "pub" and first != 65535:
+                continue
+            for run in runs:
+                if prof == "pub" and any(k in ("sub", "unsub") for k in run):
+                    continue
+                for newkind in (("pub1", "sub", "pub2") if prof == "both" else ("pub1", "pub2")):
+                    w = out.world(prof)
+                    w.build(A); w.set(A, "onDisconnection", 1); w.set(A, "window", 8)
+                    w.connect(A, keepalive=0, cleanStart=True); w.recv(A, W.connack(0, 0))
+                    place(w, first)
+                    for k in run:
+                        make(w, k)
+                    place(w, first - rnd.choice([0, 0, 1]))
+                    for _ in range(3):
+                        make(w, newkind)
+                    w.lost(A, "done"); drain(w, 2)
+                    out.done(w)
+            # held back in the queue: window 2, four publishes, then requests that are not subject to the publish window
+            for qs in ((1, 1, 1, 1), (2, 1, 2, 1), (1, 2, 0, 1)):
+                w = out.world(prof)
+                w.build(A); w.set(A, "onDisconnection", 1); w.set(A, "window", 2)
+                w.connect(A, keepalive=0, cleanStart=True); w.recv(A, W.connack(0, 0))
+                place(w, first)
+                for q in qs:
+                    w.publish(A, "t", "m%d" % q, q)
+                place(w, first)
+                w.set(A, "window", 8)
+                for _ in range(3):
+                    make(w, "sub" if prof == "both" else "pub1")
+                make(w, "pub1")
+                w.lost(A, "done"); drain(w, 2)
+                out.done(w)
 
 # ------------------------------------------------------------------------------------------------ react (stage 3)
 def actions(w):
@@ -529,7 +633,7 @@ def fam_react(out, tier, rnd):
                         w.fire(w.due()[0])
                     else:
                         w.recv(A, W.connack(0 if outcome == "ok" else 5, 0))
-                    if w.t[A].phase == "open" and type(w.p[A].state).__name__ == "ConnectingState":
+                    if w.t[A].phase == "open" and W.state_name(w.p[A]) == "ConnectingState":
                         w.recv(A, W.connack(0, 0))
                     actions(w)["publish1" if prof != "sub" else "subscribe"]()
                     if w.due() and ka:
@@ -584,7 +688,7 @@ def main():
     outdir, fam, tier, seed = sys.argv[1], sys.argv[2], sys.argv[3], int(sys.argv[4])
     rnd = random.Random(seed)
     out = Out(outdir)
-    {"handshake": fam_handshake, "inject": fam_inject, "args": fam_args, "react": fam_react, "refused": fam_refused}[fam](out, tier, rnd)
+    {"handshake": fam_handshake, "inject": fam_inject, "args": fam_args, "react": fam_react, "refused": fam_refused, "refstate": fam_refstate, "ids": fam_ids}[fam](out, tier, rnd)
     out.close()
 
 
